@@ -203,3 +203,39 @@ def dir_hash_enumeration_obligations(repo):
             continue
         raise AnalysisError(f"{c.name}.iter_file_hashes enumerates directory members in a way this analysis does not know (not Dir(..)/glob_file, os.walk or a listed override)", f"{c.name}.iter_file_hashes")
     return out
+
+
+def existence_gated_writes(mod, fn):
+    """Calls `<F>.write(...)` / `<F>.open('w..')` in `fn` that are reached only when `<F>.exists()` is false (F = the same file object or the same
+    path expression).  For files whose *name* is a digest of what the caller believes the content to be (value hash, eval hash) this is the bug
+    pattern `already there => already right`: a partial file from an interrupted writer, or content produced for an earlier text under the same
+    key, is taken for the value.  Returns [(call, guard text)]."""
+    out = []
+    cfg = CFG(fn)
+    aliases = {}
+    for a in ast.walk(fn):
+        if isinstance(a, ast.Assign) and len(a.targets) == 1 and isinstance(a.targets[0], ast.Name) and isinstance(a.value, ast.Call) and call_name(a.value) in ("File", "BaseFile") and a.value.args:
+            aliases[a.targets[0].id] = src(a.value.args[0])
+    def key(e):
+        t = src(e)
+        if isinstance(e, ast.Name) and e.id in aliases:
+            return aliases[e.id]
+        if isinstance(e, ast.Call) and call_name(e) in ("File", "BaseFile") and e.args:
+            return src(e.args[0])
+        return t
+    for c in calls_in(fn, shallow=True):
+        if not (isinstance(c.func, ast.Attribute) and c.func.attr in ("write", "open")):
+            continue
+        if c.func.attr == "open" and not any(isinstance(a, ast.Constant) and isinstance(a.value, str) and "w" in a.value for a in list(c.args) + [k.value for k in c.keywords]):
+            continue
+        k = key(c.func.value)
+        for f, t in facts_at(cfg, cfg.node_of(c)):
+            if t or not f.endswith(".exists()"):
+                continue
+            try:
+                fe = ast.parse(f, mode="eval").body
+            except SyntaxError:
+                continue
+            if isinstance(fe, ast.Call) and isinstance(fe.func, ast.Attribute) and key(fe.func.value) == k:
+                out.append((c, f))
+    return out
